@@ -117,7 +117,9 @@ int connect(int fd, const struct sockaddr *addr, socklen_t len)
     if (xv_pre_eff_fd != fd) xv_unprepared++;
     if (xv_pre_bind_fd != fd) xv_unbound++;
     if (!((const void *)addr == xv_sa_dst && XT->ip_idx >= 0 && XT->ip_idx < XT->num_remote_ips &&
-          xv_sa_src == (const void *)&XT->remote_ips[XT->ip_idx] && xv_sa_port == XT->remote_port && len == sizeof(struct sockaddr_storage)))
+          xv_sa_src == (const void *)&XT->remote_ips[XT->ip_idx] && xv_sa_port == XT->remote_port && len == sizeof(struct sockaddr_storage) &&
+          /* an IPv6 destination carries the configured scope id, 0 when none is configured - never the "not set" marker -1 (sin6_scope_id 4294967295) */
+          (XT->remote_ips[XT->ip_idx].family != AF_INET6 || xv_sa_scope == (XT->scope < 0 ? 0 : XT->scope))))
         xv_wrong_addr++;
     if (!(XT->fd_reg_id >= 0 && XT->fd_reg_id == xv_reg_id && xv_reg_fd == fd && xv_reg_event == EPOLLOUT))
         xv_unregistered++;
